@@ -133,6 +133,45 @@ def reader_cases(rng, tier, kinds=("m", "s"), skip_only=False):
     return cases
 
 
+def boundary_cases(rng, tier, kinds=("m", "s")):
+    """sequences of reads over documents shifted across the stream reader's 256-byte chunk boundary by a
+    leading string of every length around it (C10: values, keys, length fields straddling the boundary)"""
+    cases = []
+    lens = list(range(0, 12)) + list(range(236, 262)) + list(range(492, 520))
+    if tier != "quick":
+        lens = list(range(0, 530))
+    seqops = ["int:s64", "int:u8", "str", "nil", "f64", "f32", "arr", "map", "bin", "ts", "skip", "type"]
+    for L in lens:
+        for _ in range(2 if tier == "quick" else 3):
+            pad = M.enc_str(b"a" * L)
+            vs = [M.rand_value(rng) for _ in range(3)]
+            data = pad + b"".join(M.enc_value(v, rng) for v in vs)
+            ops = ["str"] + [rng.choice(seqops) for _ in range(3)]
+            pol = rng.choice(M.POLS)
+            for k in kinds:
+                cases.append("q %s %s %s %s" % (k, pol, ",".join(ops), M.hx(data)))
+            ops2 = ["skip"] + [rng.choice(["skip", "type", "str", "int:s32"]) for _ in range(3)]
+            for k in kinds:
+                cases.append("q %s SS %s %s" % (k, ",".join(ops2), M.hx(data)))
+            if rng.random() < 0.5:   # truncated inside / around the boundary
+                cut = rng.randrange(max(0, len(pad) - 3), len(data))
+                for k in kinds:
+                    cases.append("q %s %s %s %s" % (k, pol, ",".join(ops), M.hx(data[:cut])))
+    # long strings / binaries read through ReadByChunks, long arrays of small values
+    for n in (255, 256, 257, 511, 512, 513, 1000):
+        s_ = M.enc_str(bytes((i * 7) % 256 for i in range(n))) + b"\x05"
+        b_ = M.enc_bin(bytes((i * 3) % 256 for i in range(n))) + b"\x05"
+        a_ = M.enc_arr_hdr(n) + b"".join(M.enc_int(i % 200 - 100) for i in range(n)) + b"\x05"
+        for k in kinds:
+            cases.append("q %s TT str,int:u8 %s" % (k, M.hx(s_)))
+            cases.append("q %s TT skip,int:u8 %s" % (k, M.hx(s_)))
+            cases.append("q %s TT bin,byte,byte %s" % (k, M.hx(b_)))
+            cases.append("q %s TT skip,int:u8 %s" % (k, M.hx(b_)))
+            cases.append("q %s TT skip,int:u8 %s" % (k, M.hx(a_)))
+            cases.append("q %s TT arr,int:s8,int:s8,skip %s" % (k, M.hx(a_)))
+    return cases
+
+
 INT_RANGE = {"u1": (0, 2), "u8": (0, 1 << 8), "u16": (0, 1 << 16), "u32": (0, 1 << 32), "u64": (0, 1 << 64),
              "c8": (-128, 128), "s8": (-128, 128), "s16": (-(1 << 15), 1 << 15), "s32": (-(1 << 31), 1 << 31), "s64": (-(1 << 63), 1 << 63)}
 
@@ -140,6 +179,8 @@ INT_RANGE = {"u1": (0, 2), "u8": (0, 1 << 8), "u16": (0, 1 << 16), "u32": (0, 1 
 def judge_reader(line, out):
     """expected behaviour from the independent Python decoder + the property text"""
     t = line.split(" ")
+    if t[0] == "q":
+        return judge_seq(line, out)
     pol, op = t[2], t[3]
     data = bytes.fromhex(t[-1]) if t[-1] != "-" else b""
     try:
@@ -190,6 +231,39 @@ def judge_reader(line, out):
     return ("HOLD", "as the reference decoder") if out == exp else ("FAIL", "reference decoder expects: %s" % exp)
 
 
+def judge_seq(line, out):
+    """a read sequence: replay it with the Python decoder, judging each step like a single read on the
+    remaining input"""
+    t = line.split(" ")
+    kind, pol, ops = t[1], t[2], t[3].split(",")
+    data = bytes.fromhex(t[-1]) if t[-1] != "-" else b""
+    answers = out.split(";")
+    pos = 0
+    worst = ("HOLD", "every step as the reference decoder")
+    for i, op in enumerate(ops):
+        if i >= len(answers):
+            return "FAIL", "fewer answers than steps without an error"
+        a = answers[i]
+        sub = "r %s %s %s %s" % (kind, pol, op.replace(":", " "), M.hx(data[pos:]))
+        # positions in the answer are absolute: rebase
+        f = a.split(" ")
+        if f[0] in ("OK", "NOT") and f[-1].isdigit():
+            rel = int(f[-1]) - pos
+            a_rel = " ".join(f[:-1] + [str(rel)])
+        else:
+            a_rel = a
+        v, why = judge_reader(sub, a_rel)
+        if v == "FAIL":
+            return "FAIL", "step %d (%s at offset %d): %s" % (i, op, pos, why)
+        if v == "UNKNOWN":
+            worst = ("UNKNOWN", "step %d not judged independently" % i)
+        if f[0] == "ERR":
+            return worst if i == len(answers) - 1 else ("FAIL", "answers after an error")
+        if f[-1].isdigit():
+            pos = int(f[-1])
+    return worst
+
+
 def assess(prop, vlib, cases, oi, om, judge, nontrivial, rule):
     failing, diffs = [], []
     seen = set()
@@ -198,6 +272,8 @@ def assess(prop, vlib, cases, oi, om, judge, nontrivial, rule):
     for line, a, b in zip(cases, oi, om):
         t = line.split(" ")
         key = " ".join(t[:4]) if t[0] == "r" else " ".join(t[:3])
+        if t[0] == "q":
+            key = "q %s (sequence across chunk boundary)" % t[1]
         classes[key] = classes.get(key, 0) + 1
         if line not in seen:
             seen.add(line)
